@@ -289,9 +289,17 @@ impl Lexed {
             return false;
         }
         let next = self.tokens.get(i + 1).map(|n| n.text.as_str()).unwrap_or("");
-        // `key :null` is `key` `:` `null` for the grammar although it looks like a parameter
+        // `key :null` / `name :CLAMP(..)` are `key` `:` `value` for the grammar although the
+        // harness tokenizer sees a parameter: a word in entry position (after `{` or `,`) that is
+        // followed by something that looks like a parameter is left alone
         if matches!(next, ":null" | ":true" | ":false") {
             return false;
+        }
+        if self.tokens.get(i + 1).is_some_and(|n| n.kind == Kind::Param) {
+            let prev = if i > 0 { self.tokens[i - 1].text.as_str() } else { "" };
+            if matches!(prev, "{" | ",") {
+                return false;
+            }
         }
         if !kw {
             // a function name is a function name only in call position
